@@ -37,6 +37,10 @@ def scenarios(tier):
                         continue
                     out.append(dict(name=f"{layout}-nr{numrec}-p{per}-rel{''.join(map(str, rs))}", fn="run",
                                     params=dict(layout=layout, numrec=numrec, per=per, N=N, rs=list(rs), maxp=3 if q else 4), cost=20))
+    if q:
+        # one scenario with records every second step (record number != step number)
+        out.append(dict(name="sparse-nr0-p2-rel01", fn="run", params=dict(layout="sparse", numrec=0, per=2, N=N, rs=[0, 1], maxp=3), cost=20))
+        out.append(dict(name="dense-nr2-p2-rel01", fn="run", params=dict(layout="dense", numrec=2, per=2, N=4, rs=[0, 1], maxp=3), cost=30))
     return out
 
 
